@@ -10,6 +10,9 @@ TRUSTED = c02.TRUSTED + [
     "errexit: the model threads the suppress_errexit boolean exactly as interp.rs does and applies it in Pipeline::execute; the "
     "specification is declarative (position stack, exempt positions: if/elif/while/until tests, non-final && || operands, ! pipelines); "
     "ERR traps, command substitution (inherit_errexit) and eval are outside the modelled fragment",
+    "redirections on compound commands are modelled as always succeeding and transparent (only `< /dev/null`, `2>/dev/null`, `<<<x` are "
+    "generated); assignment-only commands carry at most one command substitution of scripted status (`v=$(exit n)`), the change counter "
+    "of set_last_exit_status is modelled as the number of calls made by the command's own expansion",
     "nounset: a finite decision table (19 expansion forms x 8 parameter kinds) mirrored from expansion.rs by hand, tied to the code and to "
     "bash by running every cell each run; the abort itself (error propagation) is checked on probes only",
     "bash deviates from its own manual when `set -e` is switched on *inside* a `!` compound (it then exits); the specification follows the "
